@@ -693,6 +693,13 @@ def c10(ctx):
             outof = c0.state == TS.OUTAGE and tr.new_state == TS.IDLE
         if c0 is None or c1 is None:
             continue
+        # "inactive again with its end time remembered": a record that remembers an end keeps it until it strikes again
+        for x0 in c0.outages:
+            x1 = next((y for y in c1.outages if y.id == x0.id), None)
+            if (x1 is not None and isinstance(x0.active, OutageInactive) and isinstance(x1.active, OutageInactive)
+                    and isinstance(x0.active.last_time_active, Time) and x1.active.last_time_active != x0.active.last_time_active):
+                yield F("remembered-outage-end-forgotten", f"{c0.id}: {x0} -> {x1} by {tr.new_state}", si)
+                return
         if into:
             for x in c0.outages:
                 if isinstance(x.active, OutageActive):
